@@ -20,7 +20,14 @@ Inductive case_C07 :=
    coerce_argument_values on its result, and the keyword arguments the
    resolver of f really received when the request was executed *)
 | CaseExec (s : schema) (defs : list ifield) (vds : list var_def) (call : list argument)
-           (raw : list (str * json)) (ovars : obs07) (oargs : option obs07) (oexec : obs07).
+           (raw : list (str * json)) (ovars : obs07) (oargs : option obs07) (oexec : obs07)
+(* a request selecting ONE field node  g(call)  on an interface / union
+   position: the node is resolved once per returned object, against the field
+   definition of that object's concrete type (own defaults, extra optional
+   arguments, own python names). [items]: for each returned object, in order,
+   the argument definitions of its concrete type and what its resolver received *)
+| CaseAbs (s : schema) (vds : list var_def) (call : list argument) (raw : list (str * json))
+          (ovars : obs07) (items : list (list ifield * obs07)).
 
 Fixpoint pv_eqb (a b : pv) {struct a} : bool :=
   match a, b with
@@ -72,6 +79,13 @@ Definition agree_C07 (c : case_C07) : bool :=
          | _, None => true
          end
       && same PDict (exec_kwargs s defs vds call raw) oexec
+  | CaseAbs s vds call raw ovars items =>
+      let mv := coerce_variable_values s vds raw in
+      same PDict mv ovars
+      && match mv with
+         | Ok vs => forallb (fun it => same PDict (coerce_argument_values s (fst it) call vs) (snd it)) items
+         | _ => match items with [] => true | _ => false end
+         end
   end.
 
 (* diagnostics *)
@@ -85,4 +99,24 @@ Definition model_C07 (c : case_C07) :=
                 | OutOfFuel => OutOfFuel | Crash c => Crash c end,
        Some (match mv with Ok vs => Some (coerce_argument_values s defs call vs) | _ => None end),
        Some (exec_kwargs s defs vds call raw))
+  | CaseAbs s vds call raw _ items =>
+      let mv := coerce_variable_values s vds raw in
+      (match mv with Ok d => Ok (PDict d) | Rejected k p => Rejected k p
+                | OutOfFuel => OutOfFuel | Crash c => Crash c end,
+       None,
+       match mv, items with
+       | Ok vs, it :: _ => Some (coerce_argument_values s (fst it) call vs)
+       | _, _ => None
+       end)
+  end.
+
+(* per-object answers of the model for a CaseAbs, for diagnostics *)
+Definition model_C07_items (c : case_C07) :=
+  match c with
+  | CaseAbs s vds call raw _ items =>
+      match coerce_variable_values s vds raw with
+      | Ok vs => map (fun it => coerce_argument_values s (fst it) call vs) items
+      | _ => []
+      end
+  | _ => []
   end.
